@@ -176,8 +176,16 @@ def rule_print_args(check):
         e = hir.peel(e["recv"])
     ok = chain == ["and_then", "file_name"] and hir.is_call(e) and hir.callee_name(e) == "new" and "Path" in e["callee"]["path"]
     check.expect(ok, R, R + "/file_name", hir.loc(fnm.rec), "file_name = Path::new(file).file_name()", "util::file_name is computed as %s" % chain)
+
+
+def rule_print_path(check):
+    R = "PRINT-PATH"
+    check.rule(R, "the printed program is the one that was parsed from (file, code) of this call and visited by the block driver")
+    prog = check.prog
+    t = prog.fn("rewriter::transform_js")
     pr = [n for n in hir.walk(t.body) if hir.is_call(n) and hir.callee_name(n) == "print" and "Compiler" in n["callee"]["path"]]
     vis = [n for n in hir.calls_in(t.body, name="visit_mut_with")]
+    check.floor(R, "Compiler::print sites", len(pr), 1)
     for n in pr:
         p0 = hir.local_of(hir.call_args(n)[1])
         same = bool(p0) and any(hir.local_of(hir.call_args(v)[0]) == p0 for v in vis) and t.bindings()[p0[0]]["origin"][0] == "param"
@@ -198,6 +206,7 @@ def run(check):
     check.guarded("SPAN-CTOR", rule_span_ctor)
     check.guarded("ESCAPE", rule_escape)
     check.guarded("PRINT-ARGS", rule_print_args)
+    check.guarded("PRINT-PATH", rule_print_path)
     return {
         "explanation": "Provenance of every span initialiser of every constructed AST node (context-sensitive, parameters resolved over all call sites), inventory of span constructors / overwrites, an escape rule for AST parsed in a private source map, and constant checks of the print arguments.",
         "assumptions": ["swc's code generator emits a mapping for a node from its span and none for DUMMY_SP", "build_source_map resolves byte positions in the compiler's source map"],
